@@ -401,6 +401,28 @@ func (ft *funcTrans) instr(in ssa.Instruction) {
 			ft.define(x, ft.coerceTo(t, to))
 			return
 		}
+		// []byte("constant"): a fresh array holding the bytes of the constant (allocated first, then the
+		// value is defined over it: a value declared before the allocation would carry "allocated
+		// earlier" as a type fact and contradict its own freshness)
+		if c, ok := x.X.(*ssa.Const); ok && c.Value != nil && c.Value.Kind() == constant.String && to.Kind == KSlice && !w.BV {
+			bs := []byte(constant.StringVal(c.Value))
+			r := ft.freshRef(st)
+			capc := w.declConstRaw(w.fresh("cap"), "Int")
+			w.addFact(fmt.Sprintf("(>= %s %d)", capc, len(bs)))
+			ft.define(x, Term{fmt.Sprintf("(mk-slice %s 0 %d %s)", r, len(bs), capc), to})
+			if len(bs) <= 16 {
+				es := w.sortOf(types.Typ[types.Byte])
+				h := w.elemHeap(es)
+				old := w.heapSym(st, h)
+				arr := fmt.Sprintf("(select %s %s)", old, r)
+				for i, b := range bs {
+					arr = fmt.Sprintf("(store %s %d %d)", arr, i, b)
+				}
+				nw := ft.newHeapVersion(st, h)
+				w.addFact(fmt.Sprintf("(= %s (store %s %s %s))", nw, old, r, arr))
+			}
+			return
+		}
 		func() {
 			defer func() {
 				if r := recover(); r != nil {
@@ -413,25 +435,6 @@ func (ft *funcTrans) instr(in ssa.Instruction) {
 			}()
 			ft.define(x, w.convert(t, to))
 		}()
-		// []byte("constant"): a fresh array holding the bytes of the constant
-		if c, ok := x.X.(*ssa.Const); ok && c.Value != nil && c.Value.Kind() == constant.String && to.Kind == KSlice && !w.BV {
-			if v, ok := ft.vals[x]; ok && v.L == nil && v.Tup == nil && v.Bad == "" {
-				bs := []byte(constant.StringVal(c.Value))
-				r := ft.freshRef(st)
-				w.addFact(fmt.Sprintf("(and (= (s-arr %s) %s) (= (s-off %s) 0) (= (s-len %s) %d) (>= (s-cap %s) %d))", v.T.S, r, v.T.S, v.T.S, len(bs), v.T.S, len(bs)))
-				if len(bs) <= 16 {
-					es := w.sortOf(types.Typ[types.Byte])
-					h := w.elemHeap(es)
-					old := w.heapSym(st, h)
-					arr := fmt.Sprintf("(select %s %s)", old, r)
-					for i, b := range bs {
-						arr = fmt.Sprintf("(store %s %d %d)", arr, i, b)
-					}
-					nw := ft.newHeapVersion(st, h)
-					w.addFact(fmt.Sprintf("(= %s (store %s %s %s))", nw, old, r, arr))
-				}
-			}
-		}
 	case *ssa.ChangeInterface:
 		t := ft.termOf(x.X)
 		ft.define(x, Term{t.S, w.sortOf(x.Type())})
